@@ -702,7 +702,14 @@ impl InvalidLiquidToken<'_> {
         // Reparses from the line where invalid liquid started, in order
         // to raise the error.
         let mut error = match LiquidParser::parse(Rule::LiquidFile, &text) {
-            Ok(_) => panic!("`LiquidParser::parse` should fail in InvalidLiquidTokens."),
+            // The text is rebuilt from an approximate column; with multi-byte characters
+            // before the token it can happen to be valid.
+            Ok(_) => {
+                return Err(error_from_pair(
+                    self.element,
+                    "Invalid liquid".to_owned(),
+                ));
+            }
             Err(error) => error,
         };
 
